@@ -4,20 +4,20 @@ import json, os, subprocess
 
 ROOT = os.path.dirname(os.path.dirname(os.path.abspath(__file__)))
 TECH = "Kani proof harnesses over the real code, decided by CBMC (bit-precise bounded model checking, unwinding assertions on) + CaDiCaL, against an independent reference model; counterexamples replayed natively"
-TRUST = ("Trusted base: Kani 0.68 / CBMC 6.11 / CaDiCaL; the empty tracing shim; the association-list VecSet standing in for std HashSet under cfg(rust_minidump_verif); "
+TRUST = ("Trusted base: Kani 0.68 / CBMC 6.11 / CaDiCaL; the empty tracing shim; the association-list VecSet / VecMap standing in for std HashSet / HashMap (validity sets, CFI rule table) under cfg(rust_minidump_verif); "
          "the reference models and mock FrameWalker/SymbolProvider in /verif/kani/src; allocation never fails; 64-bit usize. Holds only within the bounds listed in the evidence file.")
 
 CLAIMED = {
-    "C01": ("Bounded model checking of the reader kernels, one function (or a few) per harness, on fully symbolic bounded buffers in both byte orders: location_slice, ensure_count_in_bound, read_stream_list / read_ex_stream_list (incl. the Vec::with_capacity argument on every path), the three string readers, the exception stream incl. print, breakpad info, MinidumpMemory::read and reads from it, the handle data stream (header arithmetic, object-info record, chain termination), MinidumpContext::print for all 9 CPU types, and the byte-string kernels of the Linux key/value streams (trim/split). Decides: no panic / overflow / out-of-bounds, termination of the chain walk, and that no allocation is sized from a count the stream cannot back. Not decided: Minidump::read and the directory (BTreeMap), the composite list streams that build hash or range maps, module name/CodeView assembly, Display/Debug formatting, whole-file memory bound.",
+    "C01": ("Bounded model checking of the reader kernels, one function (or a few) per harness, on fully symbolic bounded buffers in both byte orders: location_slice, ensure_count_in_bound, read_stream_list / read_ex_stream_list (incl. the Vec::with_capacity argument on every path), the three string readers, the exception stream incl. print, breakpad info, MinidumpMemory::read and reads from it, the handle data stream (header arithmetic incl. the descriptor-size 0 boundary, object-info record, chain termination), MinidumpMiscInfo::read at the variant boundaries, MinidumpContext::print for all 9 CPU types, and the byte-string kernels of the Linux key/value streams (trim/split). Decides: no panic / overflow / out-of-bounds, termination of the chain walk, and that no allocation is sized from a count the stream cannot back. Not decided: Minidump::read and the directory (BTreeMap), the composite list streams that build hash or range maps, module name/CodeView assembly, Display/Debug formatting, whole-file memory bound.",
             "buffers of 6-48 bytes for variable-length readers, full-size records for fixed layouts; list streams of at most 2 elements"),
     "C02": ("Per-record round trip: a reference encoder (independent of minidump-synth and scroll's Pwrite) writes symbolic field values at the transcribed Microsoft/Breakpad offsets in a symbolic byte order; "
             "the real Pread impl parses; every field must come back equal, the wire size must match and a buffer one byte short must be rejected. Covers 33 wire structs (header, directory, descriptors, thread, module, "
             "exception, system info, misc info 1-5, memory info, handle descriptors, the 9 CPU contexts), the hand-written CodeView readers and debug-id derivation, context layout selection by architecture + flag check. "
             "Not decided: whole-dump serialisation, names, the directory's last-duplicate-wins rule, UnifiedMemoryList lookups.",
-            "one record per harness; quick tier = records up to 240 bytes, thorough tier adds the large contexts and misc-info 3-5"),
+            "one record per harness; quick tier = records up to 200 bytes, thorough tier adds the large contexts and misc-info 3-5"),
     "C04": ("One inductive unwinding step of the frame-pointer technique per architecture (x86, amd64, arm/iOS, arm64, arm64_old) through a cfg-guarded forwarder to the real private function: arbitrary callee registers, validity fixed per harness, 16-32 symbolic stack bytes at an arbitrary base, both byte orders; the caller frame must equal the calling-convention formulae (return address, stack pointer, frame pointer, trust, exact validity set), None exactly when the documented preconditions fail, never a panic. Plus the real CfiStackWalker: its constructor from_ctx_and_args (lookup address = frame.instruction not the raw ip, grand-callee bookkeeping, forwarded callee-saved registers) and each FrameWalker callback (width conversion without touching validity on failure, callee validity honoured, clear removes exactly one name, stack reads in the dump's byte order). One step from an arbitrary state covers chains of any depth for this technique. Not decided: CFI evaluation order and scan inside the async drivers, technique priority, return-address adjustment, MIPS, pointer-auth mask with modules, module/function labels.",
             "one step; stack window 16 (32-bit) / 32 (64-bit) bytes; empty module list (module lookup stubbed for the constructor)"),
-    "C06": ("The real eval_cfi_expr on concrete program texts (token sequence enumerated by a generator: all programs of <= 2 core tokens, all well-formed 3-token binary-operator programs, curated longer ones up to 9 tokens; thorough: all 3-token core programs and 2-token programs over the wider alphabet) with every numeric input symbolic: two callee registers (value or unknown), CFA (value or unavailable), two memory cells at symbolic addresses. Result compared with a reference interpreter of the documented postfix language that never sees the text. Programs that divide by something other than a small power-of-two literal or multiply two non-literals run with 12-bit operands (64-bit multiplier/divider equivalence is out of reach for SAT); 90 programs with 16+-digit literals or chained hard operators are excluded and listed. Also the CfiStackWalker callback every rule result goes through (too-wide result leaves the register unknown). Not decided: rule assembly in walk_with_stack_cfi / parse_cfi_exprs (REG: splitting, override order, mandatory .ra, clear on failure), walk_frame's address rule.",
+    "C06": ("The real eval_cfi_expr on concrete program texts (token sequence enumerated by a generator: all programs of <= 2 core tokens, all well-formed 3-token binary-operator programs, curated longer ones up to 9 tokens; thorough: all 3-token core programs and 2-token programs over the wider alphabet) with every numeric input symbolic: two callee registers (value or unknown), CFA (value or unavailable), two memory cells at symbolic addresses. Result compared with a reference interpreter of the documented postfix language that never sees the text. Programs that divide by something other than a small power-of-two literal or multiply two non-literals run with 12-bit operands (64-bit multiplier/divider equivalence is out of reach for SAT); 90 programs with 16+-digit literals or chained hard operators are excluded and listed. Rule tables: parse_cfi_exprs run for real on concrete record texts (label grammar, `$reg:` = `reg:`, expression extent, later rule wins within and across records, malformed records rejected), and walk_with_stack_cfi run for real with the parser replaced by a table oracle (records parsed INIT-then-deltas, .cfa and .ra mandatory, CFA rule evaluated without a CFA, set_cfa/set_ra then every register in table order, a rule that fails to evaluate clears the register, failure before the CFA/RA are known stores nothing); the rule table is an association list standing in for HashMap under the verification cfg. Also the CfiStackWalker callback every rule result goes through (too-wide result leaves the register unknown). Not decided: parser and evaluator back to back on one text (the parser's pointer-difference sub-slices are not constants for the symbolic executor), HashMap iteration order effects, walk_frame's address rule, literals of 16+ digits.",
             "programs of at most 3 tokens exhaustively (core alphabet) plus curated programs up to 9 tokens; all 64-bit values except the 12-bit narrowing stated above"),
     "C07": ("walk_with_stack_win_fpo and win_frame_size executed symbolically for every value of the u32 size fields, callee esp/ebp/ebx (value or unknown), eip, has-grand-callee, grand-callee parameter size and a 4-word stack window at any 64-bit address; the outcome must equal the documented FPO formulae in exact arithmetic (incl. the leftover-return-address skip and the ebp slot), fail cleanly (None, no panic) on any overflow/underflow/unreadable word, set only eip/esp/ebp/ebx. clear_stack_win_caller_registers driven into the real x86 CfiStackWalker (known finding: the $-prefixed names clear nothing); the walker's grand-callee bookkeeping through the real constructor. Not decided: program strings (eval_win_expr does not finish symbolic execution even for 4-token programs), parser-side record repair, framedata-over-fpo preference.",
             "one record, one step, 4-word window"),
@@ -28,22 +28,22 @@ CLAIMED = {
             "2 entries (quick), 3 entries (thorough)"),
     "C09": ("The numeric field kernels hex_str::<u64>, hex_str::<u32>, decimal_u32 on every byte string up to two bytes beyond their digit caps, against a reference fold: digits consumed, value, overflow rejection, no panic; and the parser-local range-map builder that finish() ends in (its unwrap can never fire, checked up to the range_map constructor's contract on 2 records). Not decided (the larger part of the property): the nom line grammar, parse_more/finish_item, the 10 KiB..160 KiB buffer state machine.",
             "inputs of at most 18 / 10 / 12 bytes; 2 records"),
-    "C11": ("Function::get_inlinee_at_depth and get_outermost_sourceloc (inline branch) on 3 inlinee records with symbolic (depth<=2, address, size, call line) assumed sorted by (depth, address) and a symbolic query, against a linear scan; and SymbolFile::fill_symbol on a symbol file with 2 FUNC and 2 PUBLIC records with symbolic addresses/sizes, any module base and instruction: FUNC containing the address else nearest PUBLIC unless cut off by a FUNC, bases never exceed the instruction, nothing below the module base, no overflow. Not decided: line records, inline frame emission (needs the hash-map name tables), STACK WIN parameter-size preference, inline order reversal.",
+    "C11": ("Function::get_inlinee_at_depth and get_outermost_sourceloc (inline branch) on 3 inlinee records with symbolic (depth<=2, address, size, call line) assumed sorted by (depth, address) and a symbolic query, against a linear scan; and SymbolFile::fill_symbol on a symbol file with 2 FUNC and 2 PUBLIC records with symbolic addresses/sizes, any module base and instruction: FUNC containing the address else nearest PUBLIC unless cut off by a FUNC, bases never exceed the instruction, nothing below the module base, no overflow. Parameter size: taken from the STACK WIN framedata record, else the FPO record, else the FUNC record that contains the instruction. Not decided: line records, inline frame emission (needs the hash-map name tables), inline order reversal.",
             "3 inlinee records; 2 FUNC + 2 PUBLIC records, empty name tables"),
-    "C14": ("MinidumpException::read + get_crash_address for every 168-byte exception stream, byte order, OS and CPU (all variants incl. Unknown) against the documented function; CrashReason for Windows records (access-violation / in-page-error kind gated by parameter count and kind value, everything else total), for Linux/Android (signal and si_code carried faithfully, unknown signal -> Unknown(code, flags)), macOS/iOS (total) and OSes without a table (exactly Unknown(code, flags)), with only the WinError/NTSTATUS lookup tables stubbed out. Not decided: thread/call-stack mapping, requesting-thread choice, pid/time selection, unloaded-module offsets (all inside the async whole-dump into_process_state).",
+    "C14": ("MinidumpException::read + get_crash_address for every 168-byte exception stream, byte order, OS and CPU (all variants incl. Unknown) against the documented function; CrashReason for Windows records (access-violation / in-page-error kind gated by parameter count and kind value, everything else total), for Linux/Android (signal and si_code carried faithfully, unknown signal -> Unknown(code, flags)), macOS/iOS (total) and OSes without a table (exactly Unknown(code, flags)), with only the WinError/NTSTATUS lookup tables stubbed out; CrashReason::from_windows_error's decoding order and bit fields (whole code as WinError, then NTSTATUS, then - only with a severity bit - facility bits 16..27 plus error bits 0..15, else WindowsUnknown(code)) with the two membership tables replaced by nondeterministic recording stubs; MinidumpMiscInfo process id / process times reported iff their flag bits are set. Not decided: the contents of the WinError/NTSTATUS tables, thread/call-stack mapping, requesting-thread and context choice, unloaded-module offsets (all inside the async whole-dump into_process_state).",
             "one exception record"),
     "C17": ("The leaf-name kernel every lookup path is built from (leafname, safe_leafname) on all ASCII strings up to 5 bytes: the leaf is the last component, has no separator, and what the lookups use is never empty, '.', '..' or drive-prefixed. "
             "The step from 'safe leaf' to 'safe relative path' is a stated manual reduction (leaf/hex-id/leaf' joins). Not decided: replace_or_add_extension, join, id formatting, non-ASCII names.",
             "ASCII names of at most 5 bytes"),
-    "C18": ("For each CPU context type (quick: x86, amd64, arm; thorough: all nine) and each register name or alias of the architecture table, with the whole register file and the written value symbolic: reading through the name sees the architecture slot, write-then-read returns the value, the write lands in that slot and nowhere else, memoize_register gives the canonical name; validity sets (All, empty, {canonical}, {name}, {alias spelling}, {unrelated}) are honoured by get_register, by the type-erased MinidumpContext dispatchers and by valid_registers; REGISTERS equals the architecture list; the enumerations yield every register once with its slot value; sp/ip names agree with the dedicated accessors; unknown names of 1-3 bytes give None. Not decided: format_register text.",
-            "names enumerated (finite), values solved; unknown names up to 3 bytes over [a-z0-9_$]"),
-    "C19": ("BitFlipDetails::confidence for every details value (bit-precise f32): in [0,1], never NaN, no index panic; BitRange::range equals the documented platform ranges; PossibleBitFlip::calculate_heuristics with a full amd64 context (thorough); reachability of a candidate through try_bit_flips. The candidate loop itself (every address vs. 'single bit inside the range') does not fit in 45 GB and is not decided; nor are mapped regions/permissions, platform gating, the register pass.",
+    "C18": ("For each CPU context type (quick: x86, amd64, arm; thorough: all nine) and each register name or alias of the architecture table, with the whole register file and the written value symbolic: reading through the name sees the architecture slot, write-then-read returns the value, the write lands in that slot and nowhere else, memoize_register gives the canonical name; validity sets (All, empty, {canonical}, {name}, {alias spelling}, {unrelated}) are honoured by get_register, by the type-erased MinidumpContext dispatchers and by valid_registers; REGISTERS equals the architecture list; the enumerations yield every register once with its slot value; sp/ip names agree with the dedicated accessors; unknown names of 1-3 bytes give None. Not decided: format_register text; CpuContext::registers() stepping beyond x86 (amd64 in the thorough tier).",
+            "names enumerated (finite), values solved; unknown names up to 3 bytes over [A-Za-z0-9_$.]"),
+    "C19": ("BitFlipDetails::confidence for every details value (bit-precise f32): in [0,1], never NaN, no index panic; BitRange::range equals the documented platform ranges; MemoryOperation::is_possibly_allowed_for / is_allowed_for against the Windows page-protection constants for every protection word; PossibleBitFlip::calculate_heuristics with a full amd64 context (thorough); reachability of a candidate through try_bit_flips. The candidate loop itself (every address vs. 'single bit inside the range') does not fit in 45 GB and is not decided; nor are the early return for an accessible address, platform gating, the register pass.",
             "all details values; three bit ranges"),
 }
 
 NA = {
     "C03": "Whole-pipeline property (process_minidump over hash/range containers, join_all, disassembler, serde_json): not encodable in Kani/CBMC here (design probes c,e,k,q,r,t); the one encodable mechanism it anchors (STACK WIN size arithmetic) is decided under C07.",
-    "C05": "The property is the validity/progress check at the end of each async get_caller_frame; those state machines do not get through CBMC's front end within 30 min (design probe t) and the check cannot be separated by an add-only hook. The frame-pointer overflow guards are decided under C04.",
+    "C05": "The property is the validity/progress check at the end of each async get_caller_frame. Retried in the build phase with the techniques cut away (frame pointer stubbed by an oracle, CFI through an oracle symbol provider, scan starved by a memory stub) and the architecture's driver called directly: CBMC spends its time simplifying assignments to the nested future state (unions of structs holding whole CPU contexts) and did not finish symbolic execution in 90 min; async fns cannot be replaced by Kani stubs (opaque return types differ) and the check cannot be separated by an add-only hook. The frame-pointer overflow guards are decided under C04.",
     "C10": "Quantifies over chunk schedules of the streaming parser; the body is nom parsing over a buffer window with symbolic bounds plus a 10 KiB Vec, the configuration that does not finish symbolic execution (design probes g,h).",
     "C12": "Concurrency over futures_util::lock::Mutex (atomics, waker slab) and a CacheMap of Arcs keyed by Strings: Kani has no model of the wake-up protocol and hash maps are out of reach (probes c,d).",
     "C13": "Quantifies over hash seeds and executor schedules of the whole pipeline; hash-container internals cannot be encoded, the pipeline cannot be run symbolically.",
